@@ -1322,3 +1322,99 @@ Qed.
 Lemma demo_wf : exists st, exec (new_state 3 50) (firstn 6 demo_ops) = Ok st /\ wfb st = true /\
   index st = [(0, (0, 2)); (1, (1, 1))] /\ nexti st = 2.
 Proof. eexists. split; [vm_compute; reflexivity|]. vm_compute. auto. Qed.
+(* ------------------------------------------------------------------ head appender entry points *)
+Lemma r_head_validate_spec r sid es :
+  r_head_validate r sid es = sp_head_validate WFixed (r_spec r) sid es.
+Proof. reflexivity. Qed.
+
+Lemma r_head_commit_refines sid es : forall r, RInv r ->
+  exists r', r_head_commit r sid es = Ok r' /\ RInv r' /\ sp_head_commit WFixed (r_spec r) sid es = r_spec r'.
+Proof.
+  induction es as [|e t IH]; intros r HI; simpl.
+  - exists r. auto.
+  - destruct (r_add_refines r sid e HI) as (r1 & a & -> & HI1 & Hs). cbn [bind].
+    destruct (IH r1 HI1) as (r' & H1 & H2 & H3). exists r'. split; [exact H1|split; [exact H2|]].
+    unfold sp_head_commit in *. simpl. rewrite Hs. exact H3.
+Qed.
+
+Lemma r_hstep_refines r h : RInv r ->
+  exists r' b, r_hstep r h = Ok (r', b) /\ RInv r' /\ sp_hstep WFixed (r_spec r) h = (r_spec r', b).
+Proof.
+  intros HI. destruct h as [o|v2 sid es]; simpl.
+  - apply r_step_refines, HI.
+  - rewrite r_head_validate_spec.
+    destruct (sp_head_validate WFixed (r_spec r) sid _) as [p errs].
+    destruct (r_head_commit_refines sid p r HI) as (r' & -> & HI' & ->). cbn [bind]. eauto.
+Qed.
+
+Lemma r_hrun_refines ops : forall r, RInv r -> r_hrun r ops = sp_hrun WFixed (r_spec r) ops.
+Proof.
+  induction ops as [|o t IH]; intros r HI; simpl; [reflexivity|].
+  destruct (r_hstep_refines r o HI) as (r' & b & -> & HI' & ->). now rewrite IH.
+Qed.
+
+Definition hop_int64 (h : hop) : Prop :=
+  match h with
+  | HPlain o => op_int64 o
+  | HHead _ _ es => Forall (fun x => int64 (e_ts (fst x))) es
+  end.
+
+Lemma sp_head_validate_fixed_ideal s sid es : SpInt s -> Forall (fun e => int64 (e_ts e)) es ->
+  sp_head_validate WFixed s sid es = sp_head_validate WIdeal s sid es /\
+  Forall (fun e => int64 (e_ts e)) (fst (sp_head_validate WIdeal s sid es)).
+Proof.
+  intros HI. induction 1 as [|e t He Ht IH]; simpl; [split; [reflexivity|constructor]|].
+  destruct IH as [E F]. unfold sp_head_validate in *. simpl. rewrite E.
+  rewrite sp_validate_fixed_ideal by auto. split; [reflexivity|].
+  unfold head_sort. destruct (sp_validate WIdeal s sid e); simpl; auto.
+Qed.
+
+Lemma sp_head_commit_fixed_ideal sid es : forall s, SpInt s -> Forall (fun e => int64 (e_ts e)) es ->
+  sp_head_commit WFixed s sid es = sp_head_commit WIdeal s sid es /\ SpInt (sp_head_commit WIdeal s sid es).
+Proof.
+  unfold sp_head_commit. induction es as [|e t IH]; intros s HI Hf; simpl; [auto|].
+  inversion Hf as [|? ? He Ht]; subst.
+  destruct (sp_step_fixed_ideal s (OAdd sid e) HI He) as [E HI']. simpl in E, HI'.
+  assert (E1 : fst (sp_add WFixed s sid e) = fst (sp_add WIdeal s sid e)).
+  { destruct (sp_add WFixed s sid e), (sp_add WIdeal s sid e). simpl in *. congruence. }
+  rewrite E1. apply IH; [|exact Ht].
+  destruct (sp_add WIdeal s sid e). exact HI'.
+Qed.
+
+Lemma sp_hstep_fixed_ideal s h : SpInt s -> hop_int64 h ->
+  sp_hstep WFixed s h = sp_hstep WIdeal s h /\ SpInt (fst (sp_hstep WIdeal s h)).
+Proof.
+  intros HI Hh. destruct h as [o|v2 sid es]; simpl in *.
+  - apply sp_step_fixed_ideal; auto.
+  - assert (Hf : Forall (fun e => int64 (e_ts e)) (map (fun x => without_empty (fst x) (snd x)) es)).
+    { rewrite Forall_map. simpl. exact Hh. }
+    destruct (sp_head_validate_fixed_ideal s sid _ HI Hf) as [E F]. rewrite E.
+    destruct (sp_head_validate WIdeal s sid _) as [p errs]. simpl in F.
+    destruct (sp_head_commit_fixed_ideal sid p s HI F) as [E2 HI2]. rewrite E2. auto.
+Qed.
+
+Lemma sp_hrun_fixed_ideal ops : forall s, SpInt s -> Forall hop_int64 ops ->
+  sp_hrun WFixed s ops = sp_hrun WIdeal s ops.
+Proof.
+  induction ops as [|o t IH]; intros s HI Ho; simpl; [reflexivity|].
+  inversion Ho as [|? ? Ho1 Ho2]; subst.
+  destruct (sp_hstep_fixed_ideal s o HI Ho1) as [E HI']. rewrite E.
+  destruct (sp_hstep WIdeal s o) as [s' b]. simpl in HI'. now rewrite IH.
+Qed.
+
+Lemma thm_head_entry_refines : forall l w ops,
+  int64 w -> Forall hop_int64 ops ->
+  r_hrun (r_new l w) ops = sp_hrun WIdeal (sp_new l w) ops.
+Proof.
+  intros l w ops Hw Ho. rewrite r_hrun_refines by apply RInv_new. rewrite r_spec_new.
+  apply sp_hrun_fixed_ideal; [now apply SpInt_new|exact Ho].
+Qed.
+
+(* an empty-valued label neither counts towards the length limit nor distinguishes a duplicate *)
+Lemma without_empty_props e o :
+  e_ts (without_empty e o) = e_ts e /\ e_val (without_empty e o) = e_val e /\
+  Forall (fun p => snd p <> 0) (e_lens (without_empty e o)).
+Proof.
+  repeat split. simpl. apply Forall_forall. intros p Hp. apply filter_In in Hp.
+  destruct Hp as [_ Hp]. apply negb_true_iff in Hp. now apply Z.eqb_neq in Hp.
+Qed.
